@@ -102,6 +102,10 @@ func (p *IdentityProvider) ssoHandleFunc(w http.ResponseWriter, r *http.Request)
 	// get persisted service provider from issuer out of the request
 	checkerInstance.WithLogicStep(
 		func() error {
+			if authNRequest.Issuer == nil {
+				err = fmt.Errorf("request contains no issuer")
+				return err
+			}
 			sp, err = p.GetServiceProvider(r.Context(), authNRequest.Issuer.Text)
 			if err != nil {
 				return err
